@@ -205,6 +205,8 @@ class Check:
         self.disagreements = []      # correspondence differences (dicts)
         self.failures = []           # oracle failures (dicts with 'key','what','input')
         self.tie_broken = []         # extractor problems
+        self.fallbacks = []          # static extraction failed, reference tables + correspondence used instead
+        self.boost = 1
         self.proof_broken = []       # theorem names / messages
         self.obligations = 0
         self.discharged = 0
@@ -221,7 +223,8 @@ class Check:
 
     # -- sizes -------------------------------------------------------------
     def n(self, quick, thorough):
-        return quick if self.quick else thorough
+        v = quick if self.quick else thorough
+        return v * self.boost if isinstance(v, int) and not isinstance(v, bool) else v
 
     # -- bookkeeping -------------------------------------------------------
     def case(self, key, nontrivial=True, sample=None, **dist):
@@ -247,14 +250,41 @@ class Check:
                               "observed": observed, "required": required})
 
     # -- Lean --------------------------------------------------------------
-    def gen(self, name, content):
-        """(re)generate QV/Gen/<name>.lean from source-derived content"""
+    def gen(self, name, content, facts=None):
+        """(re)generate QV/Gen/<name>.lean from source-derived content; `facts`: what the extractor hands to the harness
+        (kept next to the table so that harness/genref.py can freeze both as the reference)"""
         header = "-- GENERATED by the extractor from /repo on every run; do not edit.\n"
         with _Lock():
             write_if_changed(os.path.join(LEAN, "QV", "Gen", name + ".lean"), header + content)
+            if facts is not None:
+                os.makedirs(os.path.join(LEAN, ".lake"), exist_ok=True)
+                json.dump(facts, open(os.path.join(LEAN, ".lake", "facts_%s.json" % name), "w"), default=list)
+
+    def gen_facts(self, name, facts):
+        with _Lock():
+            os.makedirs(os.path.join(LEAN, ".lake"), exist_ok=True)
+            json.dump(facts, open(os.path.join(LEAN, ".lake", "facts_%s.json" % name), "w"), default=list)
 
     def tie_fail(self, msg):
         self.tie_broken.append(msg)
+
+    def tie_fallback(self, name, msg, default=None):
+        """The static extraction of QV/Gen/<name>.lean failed (the source left the extractable subset).  Second tie mode:
+        restore the committed reference tables (QV/GenRef/<name>.lean.ref, generated from the unchanged tree) and let the
+        model/implementation correspondence and the oracles of this run - three times as many cases - decide.  Returns the
+        reference facts (QV/GenRef/<name>.json) or `default`; without a reference the tie is broken as before."""
+        ref = os.path.join(LEAN, "QV", "GenRef", name + ".lean.ref")
+        if not os.path.exists(ref) or os.environ.get("QV_NO_TIE_FALLBACK"):
+            self.tie_fail(msg)
+            return default
+        with _Lock():
+            write_if_changed(os.path.join(LEAN, "QV", "Gen", name + ".lean"), open(ref).read())
+        self.fallbacks.append({"tables": "QV/Gen/%s.lean" % name, "static_extraction_failed": msg[:400]})
+        self.boost = 3
+        fj = os.path.join(LEAN, "QV", "GenRef", name + ".json")
+        if os.path.exists(fj):
+            return json.load(open(fj))
+        return True
 
     def build(self, module, timeout=3000):
         """lake build one module; returns (ok, output)"""
@@ -419,7 +449,7 @@ class Check:
             p = self._replay_path("unproved")
             json.dump({"property": self.pid, "seed": self.seed, "tier": self.tier,
                        "kind": "obligation-no-longer-checks",
-                       "theorems_or_ties": self.proof_broken + self.tie_broken,
+                       "theorems_or_ties": self.proof_broken + self.tie_broken + ["(reference tables in use) " + f["static_extraction_failed"] for f in self.fallbacks],
                        "correspondence_differences": self.disagreements[:20],
                        "detail": self.extra.get("build_errors", [])[:2],
                        "note": "no failing input found by the search on model and implementation",
@@ -445,6 +475,10 @@ class Check:
         }
         if self.exhaustive is not None:
             cov["exhaustive"] = self.exhaustive
+        if self.fallbacks:
+            cov["tie_fallback"] = self.fallbacks
+            cov["tie_mode"] = ("static extraction failed; committed reference tables restored and decided by the model/implementation "
+                               "correspondence and the oracles of this run (case counts x3)")
         cov.update(self.extra)
         ev = {"property_id": self.pid, "tier": self.tier, "seed": self.seed, "level": "proof",
               "coverage": cov, "assumptions": self.assumptions, "wall_s": round(wall, 2), "violations": violations}
@@ -452,6 +486,9 @@ class Check:
         with open(os.path.join(ROOT, "evidence", self.pid + ".json"), "w") as f:
             json.dump(ev, f, indent=1, default=str)
         out = sys.__stdout__
+        for fb in self.fallbacks:
+            print("TIE-FALLBACK property=%s %s: static extraction failed (%s); reference tables decided by correspondence"
+                  % (self.pid, fb["tables"], fb["static_extraction_failed"][:160].replace("\n", " ")), file=out)
         for l in lines:
             print(l, file=out)
         print("%s %s seed=%d: obligations %d/%d, cases %d (%d distinct non-trivial), model/impl differences %d, oracle failures %d (%d known), %.1fs -> exit %d"
